@@ -704,6 +704,68 @@ async fn h_all(
     Ok(HttpResponseOk(b.into_inner()))
 }
 
+// ------------------------------------ a body behind other extractors (tuples)
+// The extractor tuple (Path, Query, body) hands the endpoint's declared content
+// type to every member's metadata(): the same handlers are registered as
+// url-encoded and as JSON, and with the untyped and multipart extractors.
+
+async fn t_pb(rqctx: RequestContext<Ctx>, _p: Path<Tag>, b: TypedBody<BF>) -> HR<HttpResponseCreated<BF>> {
+    let _ = enter(&rqctx);
+    Ok(HttpResponseCreated(b.into_inner()))
+}
+async fn t_qb(rqctx: RequestContext<Ctx>, _q: Query<QTag>, b: TypedBody<BF>) -> HR<HttpResponseCreated<BF>> {
+    let _ = enter(&rqctx);
+    Ok(HttpResponseCreated(b.into_inner()))
+}
+async fn t_pqb(
+    rqctx: RequestContext<Ctx>,
+    _p: Path<Tag>,
+    _q: Query<QTag>,
+    b: TypedBody<BF>,
+) -> HR<HttpResponseCreated<BF>> {
+    let _ = enter(&rqctx);
+    Ok(HttpResponseCreated(b.into_inner()))
+}
+async fn h_praw(rqctx: RequestContext<Ctx>, _p: Path<Tag>, b: UntypedBody) -> HR<HttpResponseOk<String>> {
+    let _ = enter(&rqctx);
+    Ok(HttpResponseOk(hex(b.as_bytes())))
+}
+async fn h_qraw(rqctx: RequestContext<Ctx>, _q: Query<QTag>, b: UntypedBody) -> HR<HttpResponseOk<String>> {
+    let _ = enter(&rqctx);
+    Ok(HttpResponseOk(hex(b.as_bytes())))
+}
+async fn h_pqraw(
+    rqctx: RequestContext<Ctx>,
+    _p: Path<Tag>,
+    _q: Query<QTag>,
+    b: UntypedBody,
+) -> HR<HttpResponseOk<String>> {
+    let _ = enter(&rqctx);
+    Ok(HttpResponseOk(hex(b.as_bytes())))
+}
+async fn mp_names(mut b: MultipartBody) -> Result<Vec<String>, HttpError> {
+    let mut names = vec![];
+    loop {
+        match b.content.next_field().await {
+            Ok(Some(f)) => {
+                names.push(f.name().unwrap_or("").to_string());
+                let _ = f.bytes().await;
+            }
+            Ok(None) => break,
+            Err(err) => return Err(HttpError::for_bad_request(None, format!("multipart: {}", err))),
+        }
+    }
+    Ok(names)
+}
+async fn h_pmp(rqctx: RequestContext<Ctx>, _p: Path<Tag>, b: MultipartBody) -> HR<HttpResponseOk<Vec<String>>> {
+    let _ = enter(&rqctx);
+    Ok(HttpResponseOk(mp_names(b).await?))
+}
+async fn h_qmp(rqctx: RequestContext<Ctx>, _q: Query<QTag>, b: MultipartBody) -> HR<HttpResponseOk<Vec<String>>> {
+    let _ = enter(&rqctx);
+    Ok(HttpResponseOk(mp_names(b).await?))
+}
+
 // ----------------------------------------------------------- response kinds
 
 async fn r_ok<T: Rb>(rqctx: RequestContext<Ctx>) -> HR<HttpResponseOk<T>> {
@@ -974,6 +1036,18 @@ pub fn build_api() -> (ApiDescription<Ctx>, Ctx, BTreeMap<String, OpInfo>) {
     reg!("raw_j", h_raw, Method::POST, JSON, "/b/raw_j", info(OK_J).b("BxUntyped"));
     reg!("stream", h_stream, Method::PUT, OCTET, "/b/stream", info(OK_J).b("BxStreaming"));
     reg!("mp", h_mp, Method::POST, MULTI, "/b/mp", info(OK_J).b("BxMultipart"));
+    // body behind Path / Query / both, in every content type
+    reg!("f_p", t_pb, Method::PUT, FORM, "/f/p/{tag}/{n}", info(CREATED_J).p(spec_tag()).b(BX_FORM));
+    reg!("f_q", t_qb, Method::PUT, FORM, "/f/q", info(CREATED_J).q(spec_qtag()).b(BX_FORM));
+    reg!("f_pq", t_pqb, Method::PUT, FORM, "/f/pq/{tag}/{n}", info(CREATED_J).p(spec_tag()).q(spec_qtag()).b(BX_FORM));
+    reg!("j_p", t_pb, Method::PUT, JSON, "/j/p/{tag}/{n}", info(CREATED_J).p(spec_tag()).b(BX_JSON));
+    reg!("j_q", t_qb, Method::PUT, JSON, "/j/q", info(CREATED_J).q(spec_qtag()).b(BX_JSON));
+    reg!("j_pq", t_pqb, Method::PUT, JSON, "/j/pq/{tag}/{n}", info(CREATED_J).p(spec_tag()).q(spec_qtag()).b(BX_JSON));
+    reg!("u_p", h_praw, Method::PUT, OCTET, "/u/p/{tag}/{n}", info(OK_J).p(spec_tag()).b("BxUntyped"));
+    reg!("u_q", h_qraw, Method::PUT, OCTET, "/u/q", info(OK_J).q(spec_qtag()).b("BxUntyped"));
+    reg!("u_pq", h_pqraw, Method::PUT, OCTET, "/u/pq/{tag}/{n}", info(OK_J).p(spec_tag()).q(spec_qtag()).b("BxUntyped"));
+    reg!("m_p", h_pmp, Method::POST, MULTI, "/m/p/{tag}/{n}", info(OK_J).p(spec_tag()).b("BxMultipart"));
+    reg!("m_q", h_qmp, Method::POST, MULTI, "/m/q", info(OK_J).q(spec_qtag()).b("BxMultipart"));
     reg!("all", h_all, Method::PUT, JSON, "/all/{tag}/{n}", info(OK_J).p(spec_tag()).q(spec_qtag()).b(BX_JSON));
     reg!("r_ok_ra", r_ok::<RA>, Method::GET, JSON, "/r/ok/ra", info(OK_J));
     reg!("r_ok_rb", r_ok::<RB>, Method::GET, JSON, "/r/ok/rb", info(OK_J));
